@@ -97,6 +97,19 @@ def build_catalog():
                 x = _tt(T, P["N"], P["R1"], P["seed"])
                 return (lambda: f(x, 2.0)), (lambda: f(x, torch.ones(3 + P["aux"] % 3, dtype=torch.float64))), None
 
+            @entry("%s:first_shorter_trailing_mismatch" % opname, True)
+            def _(T, P):
+                # order mismatch with the shorter operand first and a trailing-aligned size clash: no dense counterpart
+                # under torch's rules either (both sizes > 1 and different)
+                N = [max(n, 2) for n in P["N"]] + [2 + P["aux"] % 3]
+                d = len(N)
+                j = 1 + P["k"] % (d - 1)
+                x = _tt(T, N, P["R1"] + [1], P["seed"])
+                ok = _tt(T, N[j:], [1] * (d - j + 1), P["seed"] + 1)
+                Nb = _bump(N, j + (P["aux"] // 3) % (d - j), P["aux"])
+                bad = _tt(T, Nb[j:], [1] * (d - j + 1), P["seed"] + 1)
+                return (lambda: f(x, ok)), (lambda: f(bad, x)), None
+
             @entry("%s:operator_mode_mismatch" % opname, True)
             def _(T, P):
                 N = [max(n, 2) for n in P["N"]]
